@@ -137,9 +137,11 @@ T dot_product(const Vector<T>& lhs, const Vector<T>& rhs)
 
     T result      = 0.0;
     std::size_t n = lhs.size();
+    VERIF_SCALAR_DECL(result);
 #pragma omp parallel for reduction(+ : result) if (n > 10'000)
     for (std::size_t i = 0; i < n; ++i) {
         VERIF_ITER(i);
+        VERIF_SCALAR_RW(result);
         result += lhs[i] * rhs[i];
     }
     return result;
@@ -150,9 +152,11 @@ T l1_norm(const Vector<T>& x)
 {
     T result      = 0.0;
     std::size_t n = x.size();
+    VERIF_SCALAR_DECL(result);
 #pragma omp parallel for reduction(+ : result) if (n > 10'000)
     for (std::size_t i = 0; i < n; ++i) {
         VERIF_ITER(i);
+        VERIF_SCALAR_RW(result);
         result += std::abs(x[i]);
     }
     return result;
@@ -163,9 +167,11 @@ T l2_norm_squared(const Vector<T>& x)
 {
     T result      = 0.0;
     std::size_t n = x.size();
+    VERIF_SCALAR_DECL(result);
 #pragma omp parallel for reduction(+ : result) if (n > 10'000)
     for (std::size_t i = 0; i < n; ++i) {
         VERIF_ITER(i);
+        VERIF_SCALAR_RW(result);
         result += x[i] * x[i];
     }
     return result;
@@ -176,9 +182,11 @@ T infinity_norm(const Vector<T>& x)
 {
     T result      = 0.0;
     std::size_t n = x.size();
+    VERIF_SCALAR_DECL(result);
 #pragma omp parallel for reduction(max : result) if (n > 10'000)
     for (std::size_t i = 0; i < n; ++i) {
         VERIF_ITER(i);
+        VERIF_SCALAR_RW(result);
         T abs_value = std::abs(x[i]);
         if (abs_value > result) {
             result = abs_value;
